@@ -233,3 +233,21 @@ def run(ctx):
     for k, (bi, rec) in util.ordinal_keys(falses, lambda x: "contains_hash|false"):
         ok = con.edges_dominate(allowed_edges, bi)
         ctx.ob("R15-false", k, ok, rec["sp"], "dominated by one of: num_entries==0, bits.is_empty(), probed bit==0" if ok else "returns false outside the enumerated conditions (would be a false negative)")
+    # ---- a decoded filter keeps all the bits the sender wrote: the number of bytes taken from the wire is bits_capacity of the two
+    # decoded parameters that are also stored in the filter (not of a library constant)
+    ctx.rule("R15-size", "BloomFilter::parse: the operands of bits_capacity are the values stored into num_entries and num_bits_per_entry")
+    pb = ctx.body(BF + "parse")
+    caps = [(bi, t) for bi, t in pb.calls() if callee(t) == MOD + "bits_capacity"]
+    ctx.floor("bits_capacity calls in BloomFilter::parse", len(caps), 1)
+    stored = {}
+    for blk in pb.blocks:
+        for st in blk["st"]:
+            rv = st["rv"]
+            if rv["k"] == "Agg" and (rv.get("adt") or "").endswith("bloom::BloomFilter") and "num_entries" in rv.get("fields", []):
+                for name in ("num_entries", "num_bits_per_entry"):
+                    stored[name] = pb.operand_origin(rv["o"][rv["fields"].index(name)])
+    for bi, t in caps:
+        got = [pb.operand_origin(a) for a in t["args"][:2]]
+        ok = bool(stored) and got == [stored.get("num_entries"), stored.get("num_bits_per_entry")] and None not in got
+        ctx.ob("R15-size", "parse|bit array sized from the decoded entries and bits-per-entry", ok, t["sp"], "bits_capacity(num_entries, num_bits_per_entry) of the decoded values" if ok else
+               "the number of bytes read for the bit array is not computed from the decoded (and stored) parameters: a filter written with other parameters is truncated, i.e. members test absent")
